@@ -17,7 +17,8 @@ EXPLANATION = (
     "(3) left fold for binary levels / self recursion for unary / right recursion for ?:, (4) every grammar "
     "literal has a constructor arm in parse1/parse2/parse_many and every arm is reachable from the grammar, "
     "(5) every token parser is preceded by the blank skipper. Decides these structural necessary conditions, "
-    "not tree equality for every input.")
+    "not tree equality for every input."
+    " BUDGET: the parser's per-thread nesting budget guard charges only on the granted edge and its token's Drop gives the unit back (acceptance does not depend on earlier refusals).")
 RULE_TEXT = ("instances = (level, spelling) pairs, alt groups, token parsers, constructor arms; non-trivial = "
              "those needing a table comparison or dominance/shape argument")
 TRUSTED = ["nom ordered-choice/many0 semantics as documented", "rustc MIR construction", "milu/readme.md table is the documented grammar"]
